@@ -246,7 +246,25 @@ def switch_variant(variant):
 # --------------------------------------------------------------------------
 
 def _run(cmd, cwd=None, timeout=3600, input=None):
-    return subprocess.run(cmd, cwd=cwd, capture_output=True, text=True, timeout=timeout, input=input)
+    """subprocess.run, but on timeout the whole process group is killed (lake leaves its `lean` child running)."""
+    p = subprocess.Popen(cmd, cwd=cwd, stdout=subprocess.PIPE, stderr=subprocess.PIPE, text=True,
+                         stdin=subprocess.PIPE if input is not None else None, start_new_session=True)
+    try:
+        out, err = p.communicate(input=input, timeout=timeout)
+    except subprocess.TimeoutExpired:
+        try:
+            os.killpg(p.pid, 9)
+        except OSError:
+            pass
+        p.communicate()
+        raise
+    except BaseException:
+        try:
+            os.killpg(p.pid, 9)
+        except OSError:
+            pass
+        raise
+    return subprocess.CompletedProcess(cmd, p.returncode, out, err)
 
 
 FORBIDDEN = re.compile(r"\b(sorry|admit|native_decide|bv_decide|implemented_by|unsafe)\b|^axiom\s|maxHeartbeats 0")
@@ -373,13 +391,22 @@ def lean_run_driver(prop_id, lines, timeout=3000):
     return lean_run(lines, timeout=timeout, driver="Drivers/%s.lean" % prop_id)
 
 
+DRIVER_TIMEOUT = {"quick": 600, "thorough": 3000}
+
+
 def lean_run(lines, timeout=3000, driver="Driver.lean"):
     """Feed lines to the Lean driver, return list of output lines (one per input)."""
     if isinstance(lines, list):
         data = "\n".join(lines) + "\n"
     else:
         data = lines
-    r = _run(["lake", "env", "lean", "--run", driver], cwd=LEAN_DIR, timeout=timeout, input=data)
+    timeout = min(timeout, DRIVER_TIMEOUT.get(os.environ.get("VERIF_TIER_RUNNING", "quick"), timeout))
+    try:
+        r = _run(["lake", "env", "lean", "--run", driver], cwd=LEAN_DIR, timeout=timeout, input=data)
+    except subprocess.TimeoutExpired:
+        # the model did not answer in time on what the implementation produced (on the unchanged tree every driver
+        # answers within a minute or two): the correspondence does not check; the failing-input search goes on.
+        raise Broken("lean-driver-timeout", "%s gave no answer within %d s on %d request lines" % (driver, timeout, data.count("\n")))
     if r.returncode != 0:
         raise Broken("lean-driver-failed", (r.stdout[-2000:] + r.stderr[-2000:]))
     out = r.stdout.split("\n")
